@@ -28,16 +28,45 @@ KR = "naunet/reactions/kromereaction.py"
 PURE_JOIN_OK = {"expression": '" "', "multiply": '""', "func": '""', "variable": '""', "atom": '""'}
 
 
+def _const_str(node, attrs, depth=0):
+    """Static value of a class-level string expression: literals, `+`, f-strings / `sep.join([..])` of such, and names of other
+    class-level strings (nothing of the analysed code is run).  None when the expression is anything else."""
+    if node is None or depth > 200:
+        return None
+    if isinstance(node, ast.Constant):
+        return node.value if isinstance(node.value, str) else None
+    if isinstance(node, ast.Name):
+        return _const_str(attrs.get(node.id), attrs, depth + 1)
+    if isinstance(node, ast.BinOp) and isinstance(node.op, ast.Add):
+        a, b = _const_str(node.left, attrs, depth + 1), _const_str(node.right, attrs, depth + 1)
+        return None if a is None or b is None else a + b
+    if isinstance(node, ast.JoinedStr):
+        parts = [_const_str(v.value, attrs, depth + 1) if isinstance(v, ast.FormattedValue) and v.format_spec is None and v.conversion == -1 else
+                 _const_str(v, attrs, depth + 1) for v in node.values]
+        return None if any(p is None for p in parts) else "".join(parts)
+    if isinstance(node, ast.Call) and isinstance(node.func, ast.Attribute) and node.func.attr == "join" and len(node.args) == 1 and not node.keywords \
+            and isinstance(node.args[0], (ast.List, ast.Tuple)):
+        sep = _const_str(node.func.value, attrs, depth + 1)
+        parts = [_const_str(e, attrs, depth + 1) for e in node.args[0].elts]
+        return None if sep is None or any(p is None for p in parts) else sep.join(parts)
+    return None
+
+
 def _grammars(ctx, pkg):
+    """{"fgrammar": Fortran grammar text, "cgrammar": C grammar text}: by role, the values of the class-level `grammar` table under
+    the keys "fortran" / "c" (the table ExpressionConverter.__init__ reads); the text may be assembled from shared fragments."""
     ci = pkg.cls("ExpressionConverter")
     ctx.saw(CF, "ExpressionConverter")
     out = {}
-    for name in ("fgrammar", "cgrammar"):
-        node = ci.attrs.get(name)
-        try:
-            out[name] = ast.literal_eval(node)
-        except Exception:
-            out[name] = None
+    table = ci.attrs.get("grammar")
+    by_lang = {}
+    if isinstance(table, ast.Dict):
+        for k, v in zip(table.keys, table.values):
+            if isinstance(k, ast.Constant) and isinstance(k.value, str):
+                by_lang[k.value.lower()] = v
+    for name, lang in (("fgrammar", "fortran"), ("cgrammar", "c")):
+        node = by_lang.get(lang, ci.attrs.get(name))
+        out[name] = _const_str(node, ci.attrs)
     return ci, out
 
 
@@ -552,6 +581,8 @@ MUTANTS = [
     {"name": "listvar-keeps-parentheses", "file": CF, "old": '            .replace("(", "[")\n            .replace(")", "]")\n            .replace("n", "y")', "new": '            .replace("n", "y")', "rules": ["R2"]},
 ]
 BENIGN = [
+    {"name": "grammar-assembled-from-fragments", "file": CF, "old": '    fgrammar = r"""\n        expression: multiply ((PLUS | MINUS) multiply)*\n',
+     "new": '    _sum_rule = r"""\n        expression: multiply ((PLUS | MINUS) multiply)*\n"""\n    fgrammar = _sum_rule + r"""'},
     {"name": "prepass-compiled-pattern-and-chained-replace", "file": KR,
      "old": '        rate = re.sub(r"(idx_.?)\\)", r"\\1I)", rate)\n        rate = rate.replace("Hnuclei", "nH")\n        self._kromerateconverter.read(rate)\n',
      "new": '        closing = re.compile(r"(idx_.?)\\)")\n        conv = self._kromerateconverter\n        conv.read(closing.sub(r"\\1I)", rate).replace("Hnuclei", "nH"))\n'},
